@@ -1,6 +1,7 @@
 SPECIFICATION Spec
 CONSTANTS
   CompForms <- MCCompForms
+  DeserForms <- MCDeserForms
   P = 4096
   Lens = {0, 1, 16, 32, 64, 4095, 4096, 4097, 8192, 8193}
   Handles = {1, 2}
